@@ -489,6 +489,16 @@ func c07TinyCorpus() []c07Plan {
 			Writers: [][]c07Op{{add(0, r(1, 0, 0))}, {add(1, r(1, 0, 0)), upd(1, r(2, 0, 4))}},
 			Readers: [][]c07Op{find(0)},
 		},
+		{ // two providers feed the SAME source: both updates are serialised, the later one wins completely
+			Lit: true, Setup: []c07Op{add(0, r(1, 0, 0))},
+			Writers: [][]c07Op{{upd(0, r(1, 1, 0), r(2, 0, 1))}, {upd(0, r(1, 2, 0))}},
+			Readers: [][]c07Op{find(0)},
+		},
+		{ // delete and re-add of one source racing with another provider's delete
+			Lit: true, Setup: []c07Op{add(0, r(1, 0, 0)), add(1, r(1, 0, 4))},
+			Writers: [][]c07Op{{del(0), add(0, r(1, 1, 0))}, {del(1)}},
+			Readers: [][]c07Op{find(4)},
+		},
 		{ // default rule: the lookup falls back to r.dr
 			Lit: true, Default: true,
 			Writers: [][]c07Op{{add(0, r(1, 0, 0))}, {del(0)}},
